@@ -688,7 +688,9 @@ func runIfaces(rng *rand.Rand, prog int, per int, out *progOut) {
 						pt := mt.In(i)
 						if pt.Kind() == reflect.Ptr {
 							p := reflect.New(pt.Elem())
-							fillRandom(rng, p.Elem(), 2)
+							if !fn.Outs[i] { // an out parameter starts as the zero value (a used one meets C04's stale-member finding)
+								fillRandom(rng, p.Elem(), 2)
+							}
 							args[i] = p
 							c := reflect.New(pt.Elem()).Elem()
 							c.Set(p.Elem())
